@@ -37,20 +37,22 @@ def shiftR {α : Type} : R α → R α
   | .error (e, s) => .error (shErr d e, shiftSt d y pre s)
 
 /-- the run does not end for lack of input -/
-def ND {α : Type} (r : R α) : Prop := ∀ t, r ≠ .error (.depleted, t)
+def ND {α : Type} (r : R α) : Prop := y = [] ∨ ∀ t, r ≠ .error (.depleted, t)
 
 variable {d y pre}
 
-theorem ND.of_bind {α β : Type} {r : R α} {k : α → St → R β} (h : ND (r.bind k)) : ND r := by
-  intro t hr
-  rw [hr] at h
-  exact h t rfl
+theorem ND.of_bind {α β : Type} {r : R α} {k : α → St → R β} (h : ND y (r.bind k)) : ND y r := by
+  rcases h with hy | h
+  · exact Or.inl hy
+  · refine Or.inr (fun t hr => ?_)
+    rw [hr] at h
+    exact h t rfl
 
-theorem ND.cont {α β : Type} {r : R α} {k : α → St → R β} (h : ND (r.bind k)) {a : α} {t : St} (hr : r = .ok (a, t)) : ND (k a t) := by
+theorem ND.cont {α β : Type} {r : R α} {k : α → St → R β} (h : ND y (r.bind k)) {a : α} {t : St} (hr : r = .ok (a, t)) : ND y (k a t) := by
   rw [hr] at h; exact h
 
-theorem sh_bind {α β : Type} {r r' : R α} {k k' : α → St → R β} (hnd : ND (r.bind k)) (hr : ND r → r' = shiftR d y pre r)
-    (hk : ∀ a t, r = .ok (a, t) → ND (k a t) → k' a (shiftSt d y pre t) = shiftR d y pre (k a t)) :
+theorem sh_bind {α β : Type} {r r' : R α} {k k' : α → St → R β} (hnd : ND y (r.bind k)) (hr : ND y r → r' = shiftR d y pre r)
+    (hk : ∀ a t, r = .ok (a, t) → ND y (k a t) → k' a (shiftSt d y pre t) = shiftR d y pre (k a t)) :
     r'.bind k' = shiftR d y pre (r.bind k) := by
   rw [hr hnd.of_bind]
   cases r with
@@ -67,10 +69,17 @@ theorem shiftSt_emitM (e : MEvent) (s : St) : emitM e (shiftSt d y pre s) = shif
 theorem shiftSt_emitW (e : Err) (s : St) : emitW (shErr d e) (shiftSt d y pre s) = shiftSt d y pre (emitW e s) := by
   simp [emitW, emit, shiftSt, shEv, List.append_assoc]
 
-theorem take_sh (n : Nat) (s : St) (h : ND (take n s)) : take n (shiftSt d y pre s) = shiftR d y pre (take n s) := by
+theorem take_sh (n : Nat) (s : St) (h : ND y (take n s)) : take n (shiftSt d y pre s) = shiftR d y pre (take n s) := by
   unfold take at h ⊢
   by_cases hl : s.inp.length < n
-  · exfalso; rw [if_pos hl] at h; exact h _ rfl
+  · rcases h with hy | h
+    · subst hy
+      have hl' : (s.inp ++ []).length < n := by simpa using hl
+      rw [if_pos hl]
+      show (if (s.inp ++ []).length < n then _ else _) = _
+      rw [if_pos hl']
+      simp [shiftR, shiftSt, shErr, Nat.add_right_comm]
+    · exfalso; rw [if_pos hl] at h; exact h _ rfl
   · have hl' : ¬ (s.inp ++ y).length < n := by simp only [List.length_append]; omega
     have h1 : (s.inp ++ y).take n = s.inp.take n := by rw [List.take_append_of_le_length (by omega)]
     have h2 : (s.inp ++ y).drop n = s.inp.drop n ++ y := by rw [List.drop_append_of_le_length (by omega)]
@@ -80,13 +89,13 @@ theorem take_sh (n : Nat) (s : St) (h : ND (take n s)) : take n (shiftSt d y pre
     simp only [shiftR, shiftSt_inp, h1, h2]
     simp [shiftSt, Nat.add_right_comm]
 
-theorem consume_sh (n : Nat) (s : St) (h : ND (consume n s)) : consume n (shiftSt d y pre s) = shiftR d y pre (consume n s) := by
+theorem consume_sh (n : Nat) (s : St) (h : ND y (consume n s)) : consume n (shiftSt d y pre s) = shiftR d y pre (consume n s) := by
   unfold consume at h ⊢
   exact sh_bind h (fun hh => take_sh n s hh) (fun _ _ _ _ => rfl)
 
 theorem over_sh (c : SC) (n : Nat) : (shSC d c).over n = c.over n := rfl
 
-theorem bpGo_sh (path : Path) (size : Nat) : ∀ (todo done : List SC) (s : St), ND (bpGo path size done todo s) →
+theorem bpGo_sh (path : Path) (size : Nat) : ∀ (todo done : List SC) (s : St), ND y (bpGo path size done todo s) →
     bpGo path size (done.map (shSC d)) (todo.map (shSC d)) (shiftSt d y pre s) = shiftR d y pre (bpGo path size done todo s) := by
   intro todo
   induction todo with
@@ -110,13 +119,13 @@ theorem bpGo_sh (path : Path) (size : Nat) : ∀ (todo done : List SC) (s : St),
       have := ih (done ++ [c.bump size]) s hnd
       simpa [List.map_append, shSC, SC.bump] using this
 
-theorem bytesParsed_sh (path : Path) (size : Nat) (s : St) (h : ND (bytesParsed path size s)) :
+theorem bytesParsed_sh (path : Path) (size : Nat) (s : St) (h : ND y (bytesParsed path size s)) :
     bytesParsed path size (shiftSt d y pre s) = shiftR d y pre (bytesParsed path size s) := by
   unfold bytesParsed at h ⊢
   have := bpGo_sh (d := d) (y := y) (pre := pre) path size s.scs [] s h
   simpa using this
 
-theorem readPrim_sh (abort : Bool) (p : Prim) (path : Path) (s : St) (h : ND (readPrim abort p path s)) :
+theorem readPrim_sh (abort : Bool) (p : Prim) (path : Path) (s : St) (h : ND y (readPrim abort p path s)) :
     readPrim abort p path (shiftSt d y pre s) = shiftR d y pre (readPrim abort p path s) := by
   unfold readPrim at h ⊢
   refine sh_bind h (fun hh => bytesParsed_sh path p.size s hh) (fun _ t _ h2 => ?_)
@@ -200,7 +209,7 @@ theorem removeSC_sh (id : Nat) (scs : List SC) : removeSC (id + d) (scs.map (shS
     · simp only [List.map_cons, ih]
     · exact ih
 
-theorem assertDoneSC_sh (abort : Bool) (c : SC) (s : St) (h : ND (assertDoneSC abort c s)) :
+theorem assertDoneSC_sh (abort : Bool) (c : SC) (s : St) (h : ND y (assertDoneSC abort c s)) :
     assertDoneSC abort (shSC d c) (shiftSt d y pre s) = shiftR d y pre (assertDoneSC abort c s) := by
   unfold assertDoneSC at h ⊢
   simp only [show (shSC d c).max = c.max from rfl, show (shSC d c).already = c.already from rfl,
@@ -224,7 +233,7 @@ theorem assertDoneSC_sh (abort : Bool) (c : SC) (s : St) (h : ND (assertDoneSC a
           exact sh_bind h (fun hh => bytesParsed_sh _ _ _ hh) (fun _ t _ h2 => consume_sh _ t h2)
         · simp only [hlt, if_false]; rfl
 
-theorem assertDone_sh (abort : Bool) (id : Nat) (s : St) (h : ND (assertDone abort id s)) :
+theorem assertDone_sh (abort : Bool) (id : Nat) (s : St) (h : ND y (assertDone abort id s)) :
     assertDone abort (id + d) (shiftSt d y pre s) = shiftR d y pre (assertDone abort id s) := by
   unfold assertDone at h ⊢
   simp only [shiftSt_scs, findSC_sh, removeSC_sh]
@@ -235,14 +244,16 @@ theorem assertDone_sh (abort : Bool) (id : Nat) (s : St) (h : ND (assertDone abo
     simp only [Option.map_some]
     exact assertDoneSC_sh abort c { s with scs := removeSC id s.scs } h
 
-theorem ownCatch_sh (abort : Bool) (id : Nat) (r r' : R Val) (k k' : Val → St → R Val) (hnd : ND (ownCatch abort id r k))
-    (hr : ND r → r' = shiftR d y pre r)
-    (h : ∀ a t, r = .ok (a, t) → ND (k a t) → k' a (shiftSt d y pre t) = shiftR d y pre (k a t)) :
+theorem ownCatch_sh (abort : Bool) (id : Nat) (r r' : R Val) (k k' : Val → St → R Val) (hnd : ND y (ownCatch abort id r k))
+    (hr : ND y r → r' = shiftR d y pre r)
+    (h : ∀ a t, r = .ok (a, t) → ND y (k a t) → k' a (shiftSt d y pre t) = shiftR d y pre (k a t)) :
     ownCatch abort (id + d) r' k' = shiftR d y pre (ownCatch abort id r k) := by
-  have hndr : ND r := by
-    intro t hrt
-    rw [hrt] at hnd
-    exact hnd t rfl
+  have hndr : ND y r := by
+    rcases hnd with hy | hnd
+    · exact Or.inl hy
+    · refine Or.inr (fun t hrt => ?_)
+      rw [hrt] at hnd
+      exact hnd t rfl
   rw [hr hndr]
   cases r with
   | ok vs => obtain ⟨v, t⟩ := vs; simp only [shiftR, ownCatch]; exact h v t rfl hnd
@@ -261,8 +272,8 @@ theorem ownCatch_sh (abort : Bool) (id : Nat) (r r' : R Val) (k k' : Val → St 
     | _ => rfl
 
 theorem repeatDec_sh (g : Path → St → R Val) (path : Path)
-    (hg : ∀ p s, ND (g p s) → g p (shiftSt d y pre s) = shiftR d y pre (g p s)) :
-    ∀ (n i : Nat) (s : St), ND (repeatDec g path n i s) →
+    (hg : ∀ p s, ND y (g p s) → g p (shiftSt d y pre s) = shiftR d y pre (g p s)) :
+    ∀ (n i : Nat) (s : St), ND y (repeatDec g path n i s) →
       repeatDec g path n i (shiftSt d y pre s) = shiftR d y pre (repeatDec g path n i s) := by
   intro n
   induction n with
@@ -273,13 +284,13 @@ theorem repeatDec_sh (g : Path → St → R Val) (path : Path)
     refine sh_bind h (fun hh => hg _ s hh) (fun v t _ h2 => ?_)
     exact sh_bind h2 (fun hh => ih (i+1) t hh) (fun _ _ _ _ => rfl)
 
-theorem readPrimList_sh (abort : Bool) (p : Prim) (path : Path) (n : Nat) (s : St) (h : ND (readPrimList abort p path n s)) :
+theorem readPrimList_sh (abort : Bool) (p : Prim) (path : Path) (n : Nat) (s : St) (h : ND y (readPrimList abort p path n s)) :
     readPrimList abort p path n (shiftSt d y pre s) = shiftR d y pre (readPrimList abort p path n s) := by
   unfold readPrimList at h ⊢
   rw [shiftSt_emitM]
   exact sh_bind h (fun hh => repeatDec_sh _ path (fun q s hq => readPrim_sh abort p q s hq) n 0 _ hh) (fun _ _ _ _ => rfl)
 
-theorem readListArm_sh (abort : Bool) (elem : Prim) (n : Option Nat) (path : Path) (s : St) (h : ND (readListArm abort elem n path s)) :
+theorem readListArm_sh (abort : Bool) (elem : Prim) (n : Option Nat) (path : Path) (s : St) (h : ND y (readListArm abort elem n path s)) :
     readListArm abort elem n path (shiftSt d y pre s) = shiftR d y pre (readListArm abort elem n path s) := by
   unfold readListArm at h ⊢
   cases n with
@@ -287,9 +298,9 @@ theorem readListArm_sh (abort : Bool) (elem : Prim) (n : Option Nat) (path : Pat
   | some k => exact readPrimList_sh abort elem path k s h
 
 theorem fieldWith_sh (dd : Path → Option Int → St → R Val)
-    (hd : ∀ p sel s, ND (dd p sel s) → dd p sel (shiftSt d y pre s) = shiftR d y pre (dd p sel s))
+    (hd : ∀ p sel s, ND y (dd p sel s) → dd p sel (shiftSt d y pre s) = shiftR d y pre (dd p sel s))
     (tname : String) (kind : FKind) (fpath : Path) (vals : List (String × Val)) (s : St)
-    (h : ND (decodeFieldWith dd tname kind fpath vals s)) :
+    (h : ND y (decodeFieldWith dd tname kind fpath vals s)) :
     decodeFieldWith dd tname kind fpath vals (shiftSt d y pre s) = shiftR d y pre (decodeFieldWith dd tname kind fpath vals s) := by
   cases kind with
   | plain => exact hd _ _ _ h
@@ -310,7 +321,7 @@ theorem fieldWith_sh (dd : Path → Option Int → St → R Val)
       exact sh_bind h (fun hh => repeatDec_sh _ fpath (fun p s hq => hd p none s hq) c 0 _ hh) (fun _ _ _ _ => rfl)
 
 mutual
-theorem decode_sh (abort : Bool) : (t : Ty) → ∀ (path : Path) (sel : Option Int) (s : St), ND (decode abort t path sel s) →
+theorem decode_sh (abort : Bool) : (t : Ty) → ∀ (path : Path) (sel : Option Int) (s : St), ND y (decode abort t path sel s) →
     decode abort t path sel (shiftSt d y pre s) = shiftR d y pre (decode abort t path sel s)
   | .prim p, path, sel, s, h => by simp only [decode] at h ⊢; exact readPrim_sh abort p path s h
   | .struct name isP fs, path, sel, s, h => by
@@ -360,7 +371,7 @@ theorem decode_sh (abort : Bool) : (t : Ty) → ∀ (path : Path) (sel : Option 
       exact arm_sh abort arms name _ path _ h
   | .bad r, path, sel, s, _ => by simp only [decode]; rfl
 
-theorem arm_sh (abort : Bool) : (arms : Arms) → ∀ (un want : String) (path : Path) (s : St), ND (decodeArm abort arms un want path s) →
+theorem arm_sh (abort : Bool) : (arms : Arms) → ∀ (un want : String) (path : Path) (s : St), ND y (decodeArm abort arms un want path s) →
     decodeArm abort arms un want path (shiftSt d y pre s) = shiftR d y pre (decodeArm abort arms un want path s)
   | .nil, un, want, path, s, _ => by simp only [decodeArm]; rfl
   | .consNone an key rest, un, want, path, s, h => by
@@ -392,7 +403,7 @@ theorem arm_sh (abort : Bool) : (arms : Arms) → ∀ (un want : String) (path :
       exact arm_sh abort rest un want path s h
 
 theorem fields_sh (abort : Bool) : (fs : Fields) → ∀ (path : Path) (vals : List (String × Val)) (s : St),
-    ND (decodeFields abort fs path vals s) →
+    ND y (decodeFields abort fs path vals s) →
     decodeFields abort fs path vals (shiftSt d y pre s) = shiftR d y pre (decodeFields abort fs path vals s)
   | .nil, path, vals, s, _ => by simp only [decodeFields]; rfl
   | .cons fname kind t rest, path, vals, s, h => by
@@ -407,13 +418,13 @@ end
 section
 variable {d : Nat} {y : List Byte} {pre : List (Nat × Event)}
 
-theorem sh_bind' {α β : Type} {r r' : R α} {k k' : α → St → R β} (hr : ND r → r' = shiftR d y pre r)
-    (hk : ∀ a t, ND (k a t) → k' a (shiftSt d y pre t) = shiftR d y pre (k a t)) :
-    ND (r.bind k) → r'.bind k' = shiftR d y pre (r.bind k) :=
+theorem sh_bind' {α β : Type} {r r' : R α} {k k' : α → St → R β} (hr : ND y r → r' = shiftR d y pre r)
+    (hk : ∀ a t, ND y (k a t) → k' a (shiftSt d y pre t) = shiftR d y pre (k a t)) :
+    ND y (r.bind k) → r'.bind k' = shiftR d y pre (r.bind k) :=
   fun hnd => sh_bind hnd hr (fun a t _ h => hk a t h)
 
 theorem decodeArea_sh (abort : Bool) (tb : MsgTables) (enc : Bool) (t : Ty) (path : Path) (s : St) :
-    ND (decodeArea abort tb enc t path s) →
+    ND y (decodeArea abort tb enc t path s) →
     decodeArea abort tb enc t path (shiftSt d y pre s) = shiftR d y pre (decodeArea abort tb enc t path s) := by
   unfold decodeArea
   split
@@ -424,7 +435,7 @@ theorem decodeArea_sh (abort : Bool) (tb : MsgTables) (enc : Bool) (t : Ty) (pat
   · exact decode_sh abort t path none s
 
 theorem sizedLoop_sh (abort : Bool) (t : Ty) (path : Path) (cid : Nat) : ∀ (fuel i : Nat) (acc : List Val) (s : St),
-    ND (sizedLoop abort t path cid fuel i acc s) →
+    ND y (sizedLoop abort t path cid fuel i acc s) →
     sizedLoop abort t path (cid + d) fuel i acc (shiftSt d y pre s) = shiftR d y pre (sizedLoop abort t path cid fuel i acc s) := by
   intro fuel
   induction fuel with
@@ -455,7 +466,7 @@ theorem sizedFuel_sh (cid : Nat) (scs : List SC) : sizedFuel (cid + d) (scs.map 
   cases findSC cid scs <;> rfl
 
 theorem decodeSized_sh (abort : Bool) (t : Ty) (path : Path) (cid : Nat) (s : St) :
-    ND (decodeSized abort t path cid s) →
+    ND y (decodeSized abort t path cid s) →
     decodeSized abort t path (cid + d) (shiftSt d y pre s) = shiftR d y pre (decodeSized abort t path cid s) := by
   unfold decodeSized
   simp only []
@@ -466,14 +477,16 @@ theorem decodeSized_sh (abort : Bool) (t : Ty) (path : Path) (cid : Nat) (s : St
   exact sizedLoop_sh abort t path cid _ 0 [] _
 
 theorem msgCatch_sh {abort : Bool} {id1 id2 : Nat} {name : String} {vals : List (String × Val)} {r r' : R Val} {k k' : Val → St → R Val}
-    (hr : ND r → r' = shiftR d y pre r) (h : ∀ a t, ND (k a t) → k' a (shiftSt d y pre t) = shiftR d y pre (k a t)) :
-    ND (msgCatch abort id1 id2 name vals r k) →
+    (hr : ND y r → r' = shiftR d y pre r) (h : ∀ a t, ND y (k a t) → k' a (shiftSt d y pre t) = shiftR d y pre (k a t)) :
+    ND y (msgCatch abort id1 id2 name vals r k) →
     msgCatch abort (id1 + d) (id2 + d) name vals r' k' = shiftR d y pre (msgCatch abort id1 id2 name vals r k) := by
   intro hnd
-  have hndr : ND r := by
-    intro t hrt
-    rw [hrt] at hnd
-    exact hnd t rfl
+  have hndr : ND y r := by
+    rcases hnd with hy | hnd
+    · exact Or.inl hy
+    · refine Or.inr (fun t hrt => ?_)
+      rw [hrt] at hnd
+      exact hnd t rfl
   rw [hr hndr]
   cases r with
   | ok vs => obtain ⟨v, t⟩ := vs; simp only [shiftR, msgCatch]; exact h v t hnd
@@ -507,7 +520,7 @@ macro "sh_step" : tactic => `(tactic| first
   | (intro _; rfl))
 
 theorem decodeCommand_sh (abort : Bool) (tb : MsgTables) (path : Path) (s0 : St) :
-    ND (decodeCommand abort tb path s0) →
+    ND y (decodeCommand abort tb path s0) →
     decodeCommand abort tb path (shiftSt d y pre s0) = shiftR d y pre (decodeCommand abort tb path s0) := by
   unfold decodeCommand
   have e1 : s0.pos + d + 1 = s0.pos + 1 + d := by omega
@@ -516,7 +529,7 @@ theorem decodeCommand_sh (abort : Bool) (tb : MsgTables) (path : Path) (s0 : St)
   repeat' sh_step
 
 theorem paramsStepT_sh (abort : Bool) (tb : MsgTables) (enc : Bool) (pty : Ty) (p : Path) (pid : Nat) (s : St) :
-    ND ((decodeArea abort tb enc pty p s).bind fun pv s => (assertDone abort pid s).bind fun _ s => (.ok (pv, s) : R Val)) →
+    ND y ((decodeArea abort tb enc pty p s).bind fun pv s => (assertDone abort pid s).bind fun _ s => (.ok (pv, s) : R Val)) →
     ((decodeArea abort tb enc pty p (shiftSt d y pre s)).bind fun pv s =>
         (assertDone abort (pid + d) s).bind fun _ s => (.ok (pv, s) : R Val)) =
       shiftR d y pre ((decodeArea abort tb enc pty p s).bind fun pv s =>
@@ -524,21 +537,21 @@ theorem paramsStepT_sh (abort : Bool) (tb : MsgTables) (enc : Bool) (pty : Ty) (
   sh_bind' (decodeArea_sh abort tb enc pty p s) (fun pv t => sh_bind' (assertDone_sh abort pid t) (fun _ _ _ => rfl))
 
 theorem paramsStepF_sh (abort : Bool) (tb : MsgTables) (enc : Bool) (pty : Ty) (p : Path) (s : St) :
-    ND ((decodeArea abort tb enc pty p s).bind fun pv s => (.ok (pv, s) : R Val)) →
+    ND y ((decodeArea abort tb enc pty p s).bind fun pv s => (.ok (pv, s) : R Val)) →
     ((decodeArea abort tb enc pty p (shiftSt d y pre s)).bind fun pv s => (.ok (pv, s) : R Val)) =
       shiftR d y pre ((decodeArea abort tb enc pty p s).bind fun pv s => (.ok (pv, s) : R Val)) :=
   sh_bind' (decodeArea_sh abort tb enc pty p s) (fun _ _ _ => rfl)
 
 set_option maxHeartbeats 1000000 in
 theorem decodeResponse_sh (abort : Bool) (tb : MsgTables) (cc : Option Int) (enc : Bool) (path : Path) (s0 : St) :
-    ND (decodeResponse abort tb cc enc path s0) →
+    ND y (decodeResponse abort tb cc enc path s0) →
     decodeResponse abort tb cc enc path (shiftSt d y pre s0) = shiftR d y pre (decodeResponse abort tb cc enc path s0) := by
   unfold decodeResponse
   have e1 : s0.pos + d + 1 = s0.pos + 1 + d := by omega
   simp only [shiftSt_pos, e1]
   rw [initMsg_sh]
   have finish : ∀ (vals : List (String × Val)) (s : St),
-      ND ((assertDone abort s0.pos s).bind fun _ s =>
+      ND y ((assertDone abort s0.pos s).bind fun _ s =>
         if s.scs.isEmpty then (.ok (.obj "Response" false vals, s) : R Val)
         else crash "AssertionError" "size_constraints.assert_done()" s) →
       ((assertDone abort (s0.pos + d) (shiftSt d y pre s)).bind fun _ s =>
@@ -565,7 +578,7 @@ theorem decodeResponse_sh (abort : Bool) (tb : MsgTables) (cc : Option Int) (enc
         · intro _; split <;> rfl
         · refine msgCatch_sh (decodeArea_sh _ _ _ _ _ _) (fun hv s5 => ?_)
           have after : ∀ (vals : List (String × Val)) (s8 : St),
-              ND (if (!(vInt tag == some tb.sessionsTag)) = true then
+              ND y (if (!(vInt tag == some tb.sessionsTag)) = true then
                   (assertDone abort s0.pos s8).bind fun _ s =>
                     if s.scs.isEmpty then (.ok (.obj "Response" false vals, s) : R Val)
                     else crash "AssertionError" "size_constraints.assert_done()" s
@@ -666,8 +679,10 @@ theorem decodeCommand_scs (abort : Bool) (tb : MsgTables) (path : Path) (s : St)
 theorem decodeResponse_scs (abort : Bool) (tb : MsgTables) (cc : Option Int) (enc : Bool) (path : Path) (s : St) (scs : List SC) :
     decodeResponse abort tb cc enc path { s with scs := scs } = decodeResponse abort tb cc enc path s := rfl
 
-theorem nd_ok {α : Type} {r : R α} {a : α} {t : St} (h : r = .ok (a, t)) : ND r := by
-  intro t' h'; rw [h] at h'; cases h'
+theorem nd_ok {α : Type} {r : R α} {a : α} {t : St} (h : r = .ok (a, t)) : ND y r := by
+  refine Or.inr (fun t' h' => ?_); rw [h] at h'; cases h'
+
+theorem nd_nil {α : Type} (r : R α) : ND ([] : List Byte) r := Or.inl rfl
 
 /-- **C09 for arbitrary messages, either mode**: whenever every command and every response of the sequence, decoded on its own
 (the response under its command's code and encrypt flag), completes and consumes exactly its bytes — well-formed or not, with or
@@ -888,7 +903,7 @@ theorem stream_fails_at_command (abort : Bool) (tb : MsgTables) (path : Path) (m
   simp only [hne0, Bool.false_eq_true, if_false]
   have hs0 : (⟨c ++ y, pos', out', scs'⟩ : St) = { shiftSt pos' y out' (initSt c) with scs := scs' } := by simp [shiftSt, initSt]
   have hC := decodeCommand_sh (d := pos') (y := y) (pre := out') abort tb path (initSt c)
-    (by intro t' h'; rw [hc] at h'; simp only [Except.error.injEq, Prod.mk.injEq] at h'; exact hnd h'.1)
+    (Or.inr (by intro t' h'; rw [hc] at h'; simp only [Except.error.injEq, Prod.mk.injEq] at h'; exact hnd h'.1))
   rw [hc] at hC
   rw [hs0, decodeCommand_scs, hC]
   exact ⟨_, rfl, by simp [shiftSt, shOut, initSt]⟩
@@ -930,7 +945,88 @@ theorem stream_fails_at_response (abort : Bool) (tb : MsgTables) (path : Path) (
     simp [shiftSt, initSt, htc, shOut]
   have hR := decodeResponse_sh (d := tc.pos + pos') (y := y) (pre := out' ++ shOut pos' tc.out) abort tb
     ((objField cv "commandCode").bind vInt) enc path (initSt r)
-    (by intro t' h'; rw [hr] at h'; simp only [Except.error.injEq, Prod.mk.injEq] at h'; exact hnd h'.1)
+    (Or.inr (by intro t' h'; rw [hr] at h'; simp only [Except.error.injEq, Prod.mk.injEq] at h'; exact hnd h'.1))
   rw [hr] at hR
   rw [hs1, decodeResponse_scs, hR]
   exact ⟨_, rfl, by simp [shiftSt, shOut, initSt]⟩
+
+/-! ## every stream decode, of ANY input, is the iteration of its messages' own decodes -/
+
+/-- decode the next command ON ITS OWN — from a fresh state on the remaining input — then the response on its own on what that left
+(under the command's code and encrypt flag), and so on; positions, region ids and traces are moved to where the message stands.
+The message boundaries are taken from the messages themselves: each decode says what it left. -/
+def iterMsgs (abort : Bool) (tb : MsgTables) (path : Path) :
+    Nat → List Byte → Nat → List (Nat × Event) → Except (Err × Nat × List (Nat × Event)) (Nat × List (Nat × Event))
+  | 0, _, pos, out => .error (.crash "ModelError" "stream fuel", pos, out)
+  | fuel+1, inp, pos, out =>
+    if inp.isEmpty then .ok (pos, out ++ [(pos, .marshal ⟨path, .named "Command" false, none, "", 0⟩)]) else
+    match decodeCommand abort tb path (initSt inp) with
+    | .error (e, t) => .error (shErr pos e, t.pos + pos, out ++ shOut pos t.out)
+    | .ok (cv, tc) =>
+      match cmdEncrypt tb cv with
+      | .error cls => .error (.crash cls "is_parameter_encryption(command)", tc.pos + pos, out ++ shOut pos tc.out)
+      | .ok enc =>
+        if tc.inp.isEmpty then
+          .ok (tc.pos + pos, out ++ shOut pos tc.out ++ [(tc.pos + pos, .marshal ⟨path, .named "Response" false, none, "", 0⟩)])
+        else
+          match decodeResponse abort tb ((objField cv "commandCode").bind vInt) enc path (initSt tc.inp) with
+          | .error (e, t) => .error (shErr (tc.pos + pos) e, t.pos + (tc.pos + pos), out ++ shOut pos tc.out ++ shOut (tc.pos + pos) t.out)
+          | .ok (_, tr) => iterMsgs abort tb path fuel tr.inp (tr.pos + (tc.pos + pos)) (out ++ shOut pos tc.out ++ shOut (tc.pos + pos) tr.out)
+
+/-- what a run shows: outcome, final position, trace -/
+def projR (r : R Val) : Except (Err × Nat × List (Nat × Event)) (Nat × List (Nat × Event)) :=
+  match r with
+  | .ok (_, s) => .ok (s.pos, s.out)
+  | .error (e, s) => .error (e, s.pos, s.out)
+
+/-- **the stream decode of EVERY input, in either mode, is the iteration of the messages' own decodes** (no hypothesis on the input:
+well-formed or not, complete or cut short, whatever the outcome) -/
+theorem stream_is_iteration (abort : Bool) (tb : MsgTables) (path : Path) :
+    ∀ (fuel : Nat) (inp : List Byte) (pos : Nat) (out : List (Nat × Event)) (scs : List SC),
+      projR (decodeStream abort tb path fuel ⟨inp, pos, out, scs⟩) = iterMsgs abort tb path fuel inp pos out := by
+  intro fuel
+  induction fuel with
+  | zero => intro inp pos out scs; rfl
+  | succ n ih =>
+    intro inp pos out scs
+    rw [decodeStream, iterMsgs]
+    by_cases hemp : inp.isEmpty = true
+    · simp [hemp, projR, emitM, emit]
+    · simp only [hemp, Bool.false_eq_true, if_false]
+      have hs0 : (⟨inp, pos, out, scs⟩ : St) = { shiftSt pos [] out (initSt inp) with scs := scs } := by simp [shiftSt, initSt]
+      have hC := decodeCommand_sh (d := pos) (y := []) (pre := out) abort tb path (initSt inp) (nd_nil _)
+      rw [hs0, decodeCommand_scs, hC]
+      cases hcmd : decodeCommand abort tb path (initSt inp) with
+      | error et =>
+        obtain ⟨e, t⟩ := et
+        simp [shiftR, projR, shiftSt, shOut]
+      | ok vt =>
+        obtain ⟨cv, tc⟩ := vt
+        simp only [shiftR, R.bind_ok]
+        cases henc : cmdEncrypt tb cv with
+        | error cls => simp [crash, projR, shiftSt, shOut]
+        | ok enc =>
+          simp only []
+          by_cases hemp2 : tc.inp.isEmpty = true
+          · have : (shiftSt pos [] out tc).inp.isEmpty = true := by simpa [shiftSt] using hemp2
+            simp [this, hemp2, projR, emitM, emit, shiftSt, shOut]
+          · have : (shiftSt pos [] out tc).inp.isEmpty = false := by simpa [shiftSt] using hemp2
+            simp only [this, hemp2, Bool.false_eq_true, if_false]
+            have hs1 : shiftSt pos [] out tc =
+                { shiftSt (tc.pos + pos) [] (out ++ shOut pos tc.out) (initSt tc.inp) with scs := tc.scs.map (shSC pos) } := by
+              simp [shiftSt, initSt, shOut]
+            have hR := decodeResponse_sh (d := tc.pos + pos) (y := []) (pre := out ++ shOut pos tc.out) abort tb
+              ((objField cv "commandCode").bind vInt) enc path (initSt tc.inp) (nd_nil _)
+            rw [hs1, decodeResponse_scs, hR]
+            cases hrsp : decodeResponse abort tb ((objField cv "commandCode").bind vInt) enc path (initSt tc.inp) with
+            | error et =>
+              obtain ⟨e, t⟩ := et
+              simp [shiftR, projR, shiftSt, shOut]
+            | ok vt2 =>
+              obtain ⟨rv, tr⟩ := vt2
+              simp only [shiftR, R.bind_ok]
+              have hs2 : shiftSt (tc.pos + pos) [] (out ++ shOut pos tc.out) tr =
+                  ⟨tr.inp, tr.pos + (tc.pos + pos), out ++ shOut pos tc.out ++ shOut (tc.pos + pos) tr.out, tr.scs.map (shSC (tc.pos + pos))⟩ := by
+                simp [shiftSt, shOut]
+              rw [hs2]
+              exact ih _ _ _ _
